@@ -85,8 +85,7 @@ def path_params(p, names):
 def cover_check(paths, names):
     """the explored paths partition all 2^64 x 2^64 parameter values: not(Or(pc_i)) is unsat"""
     s = z3.Solver(); s.add(z3.Not(z3.Or([z3.And(p.pc) if p.pc else z3.BoolVal(True) for p in paths])))
-    smt.STATS['queries'] += 1
-    return s.check() == z3.unsat
+    return smt.check(s) == z3.unsat
 
 def check_outputs(alg, outs, coef, xs, ncols, tmo=120):
     """outs[k][c] (classes) vs Σ_j coef[k][j]·xs[j][c]; returns None or a counterexample dict.
